@@ -13,13 +13,14 @@ CHECKS["C13"] = {
              "spans >= 2 families or interval ratio > 1; TestEngineFamilies (real engine: Shard.GetOrCrateDataFamily / Shard.GetDataFamilies for day-, month- and year-type "
              "intervals, families clustered around a boundary-biased anchor, ranges starting/ending in neighbouring families and segments) = some range overlaps >= 2 existing families; written timestamps and range ends biased to calendar family boundaries (first/last ms of an existing or neighbouring family incl. the first family of a segment, +-1 ms, +-1 slot, interval-truncated ends = slot 0, single-millisecond ranges), oracle = existing families whose time range intersects the inclusive query range. "
              "TestBrokerBatchFamilies = history of 4-12 acquire/write+release steps on 1-2 POOLED BrokerBatchRows objects (metric.NewBrokerBatchRows/Release) over 2-3 databases with generated intervals (grouping as replica.databaseChannel.Write: NewShardGroupIterator(1-4 shards), FamilyRowsForNextShard(interval), HasNextFamily/NextFamily), timestamps clustered around one boundary-biased anchor; every row handed out once, per shard every family once, group family time = calendar family of every row = CalcFamilyTime, [familyTime, CalcFamilyEndTime] contains the row; non-trivial = some batch object reused for a database of another interval type than its previous use. "
+             "TestEngineConcurrentFamilies = goroutine stress on one shard of a real engine: 2-8 barrier-released goroutines call Shard.GetOrCrateDataFamily with timestamps of a generated pool (2-6 timestamps in 1-3, mostly >=2, different segments around a segment boundary; first/last/any family of the segment, first/last/any ms of the family; generated subset pre-created, rest created under the race; 0-2 rollup intervals), each following its own pattern (dedicated / alternating / list) for 2000-12000 lookups, optionally with Shard.GetDataFamilies over generated ranges in between; interleaving-independent oracle: every lookup returns the calendar family of its own timestamp, one family object per family time over all goroutines and queries, query results are distinct calendar families intersecting the inclusive range and contain every pre-created family and every family the asking goroutine obtained earlier; non-trivial = >=2 segments looked up concurrently. "
              "distinct = (interval(s), timestamp(s)) hash"),
-    "technique": "property-based testing (rapid) of the calculators and the planner against arithmetic invariants + exhaustive family-boundary walk; stateful histories over pooled batch objects (write-side family grouping) with a calendar (time.Date) reference",
+    "technique": "property-based testing (rapid) of the calculators and the planner against arithmetic invariants + exhaustive family-boundary walk; stateful histories over pooled batch objects (write-side family grouping) with a calendar (time.Date) reference; real-goroutine stress variant of the engine family lookup with an interleaving-independent oracle (-race in the thorough tier)",
     "level_text": ("Generated-input exploration: tens of thousands of boundary-biased (interval, timestamp) cases per run and a complete walk over "
                    "all family boundaries of 21 years check exactly the invariants the statement lists (containment, tiling, idempotence, slot bound, "
                    "planner multiple/alignment/cover). The functions are pure, so sampling + the exhaustive walk is the right level."),
-    "level_note": "Trusted: Go's time package as the calendar; TZ=UTC; window 2015..2035. The engine-level family lookup (TestEngineFamilies) goes through a real tsdb engine (sim/node). Rollup-target interval segments are only populated by rollup jobs and are not queried in TestEngineFamilies (single-interval databases).",
-    "assumptions": ["TZ=UTC (time.Local); DST zones out of scope", "timestamps restricted to 2015-01-01..2035-12-31", "sync.Pool hands a released batch back on the same goroutine (class batch-object=reused-from-pool shows how often); an object new to a case is primed with one unchecked use so that the outcome does not depend on earlier cases", "EvictOutOfTimeRange is called with behind=ahead=0 in TestBrokerBatchFamilies (wall-clock independent)"],
+    "level_note": "Trusted: Go's time package as the calendar; TZ=UTC; window 2015..2035. The engine-level family lookup (TestEngineFamilies) goes through a real tsdb engine (sim/node). Rollup-target interval segments are only populated by rollup jobs and are not queried in TestEngineFamilies (single-interval databases). Pre-emption between instructions of the lookup path is only sampled by the stress variant (needs >=2 cores: seeded C13f detected 10/10 runs on 16 cores, 0/5 pinned to one core). Segment eviction/TTL/close concurrent with lookups is not generated (lifecycle, not bucketing).",
+    "assumptions": ["TZ=UTC (time.Local); DST zones out of scope", "timestamps restricted to 2015-01-01..2035-12-31", "sync.Pool hands a released batch back on the same goroutine (class batch-object=reused-from-pool shows how often); an object new to a case is primed with one unchecked use so that the outcome does not depend on earlier cases", "EvictOutOfTimeRange is called with behind=ahead=0 in TestBrokerBatchFamilies (wall-clock independent)", "Shard.GetOrCrateDataFamily / GetDataFamilies are safe for concurrent use on one shard (every layer takes its own mutex); today's only production caller of GetOrCrateDataFamily serialises lookups per database behind the WAL mutex, queries run concurrently with it"],
     "tests": [
         {"name": "TestPartition", "quick": 20000, "thorough": {"checks": 200000, "shards": 8}},
         {"name": "TestRangeFamilies", "quick": 3000, "thorough": {"checks": 30000, "shards": 4}},
@@ -27,6 +28,7 @@ CHECKS["C13"] = {
         {"name": "TestPlannerInterval", "quick": 20000, "thorough": {"checks": 200000, "shards": 4}},
         {"name": "TestEngineFamilies", "quick": 400, "thorough": {"checks": 3000, "shards": 4}},
         {"name": "TestBrokerBatchFamilies", "quick": 3000, "thorough": {"checks": 30000, "shards": 4}},
+        {"name": "TestEngineConcurrentFamilies", "quick": 100, "thorough": {"checks": 300, "shards": 4, "race": True, "timeout": 3000}},
         {"name": "TestRegression_RangeStartingInPreviousMonth", "quick": {}, "thorough": {}},
     ],
 }
@@ -34,8 +36,8 @@ CHECKS["C13"] = {
 CHECKS["C01"] = {
     "pkg": "./c01/",
     "level": "fault_enumeration",
-    "technique": "stateful property-based testing (rapid state machine) with crash-image fault injection at every intercepted file-system operation, reference-model oracle; harness-owned interleavings at the manifest seam and the tableCreate seam",
-    "rule": ("rapid state machine over one kv store (1-3 families, union merger): createFamily / flush(Add|StreamWriter, sequences, empty) / openWriter + commitWriter (up to 4 unfinished writers of the store at a time, committed in any order, all committed before a close) / compact / deleteObsolete+cache cleanup / storeCompact (one tick of the periodic store housekeeping Store.compact; at most one family's compaction is left to the production background goroutine and waited for) / reopen. Harness-owned interleavings: (a) at a generated manifestWrite|manifestSync (before|after) seam of a flusher commit a helper goroutine opens 1-3 further writers on families of the same store (on the unchanged tree they wait for the version-set mutex and open right after the commit), (b) an obsolete-file pass of the family at a writer's tableCreate seam. At the tableCreate seam no table may be created under a file number held by a referenced table of any family or by an unfinished writer. A directory image is taken before and after every intercepted FS operation (table create/write/close, "
+    "technique": "stateful property-based testing (rapid state machine) with crash-image fault injection at every intercepted file-system operation, reference-model oracle; harness-owned interleavings at the manifest seam and the tableCreate seam (writers, obsolete-file passes, cache cleanup, parked compaction job)",
+    "rule": ("rapid state machine over one kv store (1-3 families, union merger): createFamily / flush(Add|StreamWriter, sequences, empty) / openWriter + commitWriter (up to 4 unfinished writers of the store at a time, committed in any order, all committed before a close) / compact / deleteObsolete+cache cleanup / storeCompact (one tick of the periodic store housekeeping Store.compact; at most one family's compaction is left to the production background goroutine and waited for) / reopen. Harness-owned interleavings: (a) at a generated manifestWrite|manifestSync (before|after) seam of a flusher commit (flush, commitWriter; 1 in 3) other jobs of the store run, drawn from a menu: a helper goroutine opens 0-3 further writers (on the unchanged tree they wait for the version-set mutex); obsolete-file passes of the committing or another family and reader-cache cleanups run on the spot (they need no version-set lock), before or after the helper's time; a production level-0 compaction job of a family, started right before the commit on its own goroutine and parked at its trailing listDir (resumed at the commit's seam or after the commit) or at the tableCreate of its first output (resumed after the commit), one goroutine running at a time; after every operation every table referenced by the current version of a family must be a file of the family directory; (b) an obsolete-file pass of the family at a writer's tableCreate seam. At the tableCreate seam no table may be created under a file number held by a referenced table of any family or by an unfinished writer. A directory image is taken before and after every intercepted FS operation (table create/write/close, "
              "manifest create/write/sync/close, CURRENT tmp write + rename, OPTIONS write, mkdir, remove, listDir) of every operation; each recovered image "
              "must equal the model before or after the single operation in flight, then takes new flushes+compaction with fresh file numbers. Quick tier: an image is copied at every 3rd FS point (generated phase per operation), 10 per crash action recovered. "
              "non-trivial = image inside an operation (any intercepted FS op other than the leading listDir); distinct = (history, image tag) hash"),
@@ -43,8 +45,8 @@ CHECKS["C01"] = {
                    "production open path (quick tier: a generated sample of 10 per crash action) and compared with an independent model; this matches the property's "
                    "quantifier (every history x every point between two FS operations) up to the sampled set of histories."),
     "level_note": ("Process-crash model: an image is a copy of the directory at the hook (user-space buffers lost, kernel state kept). FS operations inside ltoml.EncodeToml and the file lock "
-                   "are not split further. Power-loss reordering is out of scope. Torn (short) writes are not generated in this check. Windows are only opened inside flusher commits (flush, commitWriter), not inside compaction commits: a compaction runs its trailing obsolete-file pass after the commit, and letting the helper run next to it would make images depend on scheduling."),
-    "assumptions": ["crash = process death, not power loss", "tmpfs scratch directory", "rollup bookkeeping crash points are covered by C04's machinery, not here", "several unfinished flushers per store and family are legal (Family.NewFlusher has no exclusivity; flush, compaction outputs and rollup outputs coexist in production)", "the helper goroutine of a window gets 30 ms at the seam; on the unchanged tree it blocks on the version-set mutex, so the run does not depend on the timer (on a changed allocator detection may be labelled flaky by rapid)"],
+                   "are not split further. Power-loss reordering is out of scope. Torn (short) writes are not generated in this check. Windows are only opened inside flusher commits (flush, commitWriter), not inside compaction commits: a compaction runs its trailing obsolete-file pass after the commit, and letting the helper run next to it would make images depend on scheduling. A compaction that starts inside the window (rather than before the commit) is not generated: it would block on vs.mutex and its images would depend on scheduling."),
+    "assumptions": ["crash = process death, not power loss", "tmpfs scratch directory", "rollup bookkeeping crash points are covered by C04's machinery, not here", "a compaction job may run next to any flusher commit of the same store (Family.compact / JobScheduler goroutines)", "reader cache TTL is 1h in C01, so the cache cleanup in the window evicts nothing; eviction is C02's subject", "several unfinished flushers per store and family are legal (Family.NewFlusher has no exclusivity; flush, compaction outputs and rollup outputs coexist in production)", "the helper goroutine of a window gets 30 ms at the seam; on the unchanged tree it blocks on the version-set mutex, so the run does not depend on the timer (on a changed allocator detection may be labelled flaky by rapid)"],
     "tests": [
         {"name": "TestCrashRecovery", "quick": 40, "thorough": {"checks": 150, "shards": 16}},
     ],
@@ -103,14 +105,14 @@ CHECKS["C05"] = {
     "rule": ("rapid state machine on queue.NewQueue: put (0 B..3 MiB incl. empty, 1-7 B, exact fit of the data page), putTooBig (>128 MiB refused, no sequence consumed), overlappingPut (appender B runs complete Puts while A sits "
              "between reserving space and publishing its sequence), crashPut (directory image before/after each WriteBytes/PutUint64/PutUint32 of the append, each image reopened with NewQueue, scanned and appended to incl. a 0/5-byte message), "
              "reopen (also at an index-page boundary), ack (partial / everything), gc, gcInterleaved (a generated script of appends sized relative to the room left in the data page - fit / exact fit / roll-over -, acks and reads runs while GC sits at "
-             "one of its three lock-free page-store calls: index GetPage, data TruncatePages, index TruncatePages); page-boundary profile (1/2 of the histories): a fill message brings the cursor to 0..1 MiB before the page end (<= 3 per history). "
+             "one of its three lock-free page-store calls: index GetPage, data TruncatePages, index TruncatePages), faultyPut (an append under page-store faults: the next 1-3 creations of a data/index page file by AcquirePage fail - open/EMFILE without residue, truncate/ENOSPC leaving an empty file, mmap/ENOMEM leaving a zero file - and the next 0-2 page Syncs fail; armed on the append that rolls over the data page or that is the first of an index page; then 1-4 steps with the remaining faults armed: writer retries / sends next, another writer appends, read, reopen, ack+gc; finally the faults end and the retry must succeed), reopenFaulty (construction of the data/index/meta page factory fails once, next open succeeds); a Put may fail only when a fault was injected and a failed Put moves no sequence; page-boundary profile (1/2 of the histories): a fill message brings the cursor to 0..1 MiB before the page end (<= 3 per history). "
              "After every step every sequence in (ack, appended] must return exactly the message appended under it (a non-overlapped append gets appended+1; overlapped ones are matched once), the seq->message mapping never changes, "
-             "appended == successful appends - 1. TestRollOver: 30-70 MiB messages crossing the 128 MiB data page. TestConcurrentAppenders: 2-6 goroutines. non-trivial = history with a recovered crash image, or an overlapping append followed "
-             "by a reopen, or a GC interleaved with appends; each recovered crash point counts as one case; distinct = (history, image tag) hash"),
+             "appended == successful appends - 1. TestRollOver: 30-70 MiB messages crossing the 128 MiB data page (big appends run under the same faults with p=1/2 when they roll over). TestConcurrentAppenders: 2-6 goroutines. non-trivial = history with a recovered crash image, or an overlapping append followed "
+             "by a reopen, or a GC interleaved with appends, or a history with an append failed by an injected fault; each recovered crash point counts as one case; distinct = (history, image tag) hash"),
     "level_text": ("Fault enumeration at store granularity (every store of an append in the thorough tier, a generated sample of 4 per append in the quick tier) over generated histories, "
                    "plus exploration of appender overlap at the one seam the implementation has and an unsystematic goroutine variant with an interleaving-independent oracle."),
     "level_note": "Process-crash model for MAP_SHARED pages (stores survive in program order). Overlap is driven through a goroutine with a 3 ms rendezvous window, so the schedule of that action is best-effort deterministic; the oracle does not depend on it. GC interleavings are harness-owned and deterministic (the script runs to completion at the seam; 10 s fallback if the implementation blocks there). In histories holding >= one data page, crashPut is limited to once with 3 images, also in the thorough tier.",
-    "assumptions": ["data page size is the 128 MiB constant", "crash = process death"],
+    "assumptions": ["page-store faults are those page.Factory / MappedPage can return (AcquirePage of a page not yet held, Sync, factory construction); a held page is never failed, GetPage and mapped stores have no failure; faults are injected in the harness wrapper above the production page factory", "data page size is the 128 MiB constant", "crash = process death"],
     "tests": [
         {"name": "TestQueueHistory", "quick": 60, "thorough": {"checks": 400, "shards": 12}},
         {"name": "TestRollOver", "quick": 6, "thorough": {"checks": 10, "shards": 2}},
@@ -168,29 +170,32 @@ CHECKS["C17"] = {
     "level": "exploration",
     "technique": ("property-based testing (rapid): grammar-based text generation -> sql.Parse twice (determinism) -> production MarshalJSON/UnmarshalJSON round trip "
                   "(also after the production planner step calcTimeRangeAndInterval) with structural equality, Rewrite() agreement and byte-identical re-marshal; "
-                  "direct expression-tree/statement generation -> stmt.Marshal/Unmarshal; native go fuzzing of sql.Parse with the same oracle"),
+                  "direct expression-tree/statement generation -> stmt.Marshal/Unmarshal; native go fuzzing of sql.Parse with the same oracle; barrier-released goroutine sessions over the pooled lexer/parser with a sequential reference"),
     "rule": ("TestParsedQuerySurvivesWire: SQL text derived from the query rules of sql/grammar/SQL.g4 (derivation depth <= 5); non-trivial = "
              "expression depth of the parsed statement >= 3 and >= 3 clause kinds present out of {alias, tag condition, explicit time range, "
              "group-by time interval, group-by tags, having, order by, limit, explain, namespace}; distinct = hash of the text. "
              "TestParsedMetadataSurvivesWire: show namespaces|metrics|fields|tag keys|tag values text; non-trivial = condition depth >= 3 and >= 3 of "
              "{condition, limit, namespace, prefix, tag key}. TestExprTreeRoundTrip: directly built stmt.Expr trees (every node kind, function type, "
              "operator, any nesting the Go types allow); non-trivial = depth >= 3 and >= 3 node kinds; distinct = hash of the JSON. "
-             "TestPlannedStatementRoundTrip: directly built stmt.Query (all broker-side fields) / stmt.MetricMetadata; non-trivial = depth >= 3 and >= 3 fields set."),
+             "TestPlannedStatementRoundTrip: directly built stmt.Query (all broker-side fields) / stmt.MetricMetadata; non-trivial = depth >= 3 and >= 3 fields set. "
+             "Size class: 2 % of the generated texts (3 % of the directly built trees/statements) have ONE wide clause with 12..100 terms (ladder dense around 32/64) on one or two levels: where clause of N tag filters joined by and/or incl. parenthesised groups, in-list of N values, f0+f1*...fN in one select item, call with N params, having of N/2 comparisons, select/group by/order by lists of N entries; built trees: right-deep chain as prometheus makeCondition builds it, left-deep chain, balanced tree, call with N params, in with N values, N nested wrappers; classes wide=*, exprNodes=*, fanout=*. "
+             "TestConcurrentSessionsParseAlike: case = (3-8 generated texts, 0-3 statements the grammar accepts and the validation refuses [order by not selected, start after end, limit beyond int32, bad timestamp, duration overflow, missing operand, number beyond float64, empty select], 0-3 syntax-error mutants; 2-8 sessions = sequences of 4-40 indices into the text set, goroutines released by one barrier); every result must be the verdict of the same text parsed alone beforehand; non-trivial = >= 3 sessions, >= 2 accepted texts shared by >= 2 sessions, >= 1 validation-rejected text parsed in a session, >= 2 Parse calls observed in flight; distinct = hash of texts + schedules."),
     "level_text": ("Generated-input exploration: tens of thousands of grammar-derived statements per run (the acceptance rate of the generated texts is recorded in evidence notes), "
                    "every node kind / function / operator of the statement model in arbitrary nesting, plus coverage-guided fuzzing of the parser in the thorough tier. "
                    "The code under test is pure, so sampling + fuzzing is the right level."),
     "level_note": ("Trusted: json-iterator; Go reflect for deep equality. Equality: nil and empty slices are identified (JSON cannot keep the difference and no consumer "
                    "distinguishes them); number literals are compared by float64 bit pattern; TimeRange bounds that read the wall clock are excluded from the determinism "
-                   "comparison only (never from the wire comparison)."),
+                   "comparison only (never from the wire comparison). TestConcurrentSessionsParseAlike: interleaving not controlled (sampled); the oracle holds for every interleaving; measured detection of seeded C17e 20/20 seeds within 6 cases (GOMAXPROCS >= 2), 7/20 at GOMAXPROCS = 1; a failing case may be reported as flaky by rapid."),
     "assumptions": ["TZ=UTC (time strings are parsed in time.Local)",
                     "direct trees: no nil children, valid UTF-8 strings, finite numbers, Interval/StorageInterval whole seconds (what producers in /repo can build)",
                     "wall clock later than 2022 and not jumping backwards by > 1h during a case (only affects the acceptance rate, not the oracle)",
-                    "fuzz inputs > 4 KiB are skipped"],
+                    "fuzz inputs > 4 KiB are skipped", "TestConcurrentSessionsParseAlike needs GOMAXPROCS >= 2 for a useful detection rate", "wide clauses <= 100 terms (stmt.Unmarshal is O(n^2) in chain length)"],
     "tests": [
         {"name": "TestParsedQuerySurvivesWire", "quick": 20000, "thorough": {"checks": 30000, "shards": 16}},
         {"name": "TestParsedMetadataSurvivesWire", "quick": 5000, "thorough": {"checks": 50000, "shards": 2}},
         {"name": "TestExprTreeRoundTrip", "quick": 20000, "thorough": {"checks": 200000, "shards": 4}},
         {"name": "TestPlannedStatementRoundTrip", "quick": 10000, "thorough": {"checks": 100000, "shards": 4}},
+        {"name": "TestConcurrentSessionsParseAlike", "quick": 150, "thorough": {"checks": 2000, "shards": 4}},
         {"name": "TestRegression_NilOperand", "quick": {}, "thorough": {}},
         {"name": "TestRegression_InfNumberLiteral", "quick": {}, "thorough": {}},
         {"name": "TestRegression_DurationOverflow", "quick": {}, "thorough": {}},
@@ -206,7 +211,7 @@ CHECKS["C16"] = {
                   "metamorphic relations (tag permutation, format, neighbours), batch histories over the sync.Pool, the production replica.ChannelManager write path with a fake rpc stream factory, native fuzzing of the influx/flat parsers"),
     "rule": ("TestIngestRoute: a case is a history of 1-4 requests (format, namespace, enriched tags, limits, 1-200 metrics) against one "
              "database config (behind/ahead, intervals, 1-64 shards); non-trivial = >= 2 routed requests (pooled batch reused) and some "
-             "request hits >= 2 shards and >= 2 families and has >= 1 evicted row. TestFormatsAgree: non-trivial = metric accepted, >= 2 "
+             "request hits >= 2 shards and >= 2 families and has >= 1 evicted row; a protobuf request may come WITHOUT request-level namespace (~30% of proto requests; then every metric keeps its own namespace, incl. none); multi-tenant requests (20%, 70% when there is no request namespace): every metric carries its own namespace from a per-request pool of 2-4 (\"\", default-ns, request-namespace values, a '|' name, prefix pairs) and 80% of the names come from a per-request pool of 1-3 names, so rows of the same name and different namespaces follow each other; NameHash = xxhash(sanitised stored namespace + name) for every row irrespective of its neighbours. TestFormatsAgree (the proto request optionally has no request namespace; neighbours share the target's name with other namespaces; content incl. NameHash is compared between formats whenever the model says both store the same namespace): non-trivial = metric accepted, >= 2 "
              "tags, compared in >= 2 formats. distinct = hash of config + every metric (timestamps as offsets from the case's now). "
              "TestChannelWrite: a case is one production ChannelManager (created through the shard-state callback) with 1-2 databases, each with its own write window (symmetric / behind>ahead / behind<ahead / one or both sides unlimited, 30m..7d), intervals and 1-64 shards, and a history of 1-4 requests (any format) to a drawn database; timestamps are drawn relative to BOTH spans incl. rows between the two spans; chunk block size default or 1/300/2048 B. non-trivial = a routed request to an asymmetric-window database with >= 1 row whose verdict would flip if the sides were exchanged, and >= 1 kept and >= 1 dropped row; distinct = hash of block size + database configs + every request"),
     "level_text": ("Generated-input exploration through the functions the HTTP handler and databaseChannel.Write call: every accepted row is "
@@ -216,8 +221,8 @@ CHECKS["C16"] = {
                    "TestChannelWrite goes through ChannelManager.Write -> databaseChannel.Write -> familyChannel -> chunk -> rpc write stream with a fake stream factory: per request the database's out_of_time_range counter must grow by exactly the number of rows outside that database's window and Write must succeed; after stopping every shard channel (families flush and join) the storage side must have received exactly the in-window rows, each on the stream of shard = jump hash and of the family containing its timestamp."),
     "level_note": ("Trusted: xxhash library, timeutil calculators (C13), Go http/protobuf/flatbuffers. Clock: one now per case, timestamps >= 10 min "
                    "from the thresholds. GC is disabled inside a case and the batch pool emptied first, so pool reuse is deterministic. "
-                   "Out of scope by the statement: whether every well-formed influx line is accepted (a line without tags and >= 2 fields is refused by lindb; not generated). TestChannelWrite drains with ShardChannel.Stop (as databaseChannel.Stop does) instead of ChannelManager.Close, because Close cancels the context first and the stream's recv loop may then refuse the last chunk (shutdown loss, outside C16; observation). One live node, every shard has a channel; shard-count changes and leader changes are not generated."),
-    "assumptions": ["request namespace non-empty and within limits, enriched tags non-empty/within limits/unique keys (the handler guarantees this)",
+                   "Out of scope by the statement: whether every well-formed influx line is accepted (a line without tags and >= 2 fields is refused by lindb; not generated). TestChannelWrite drains with ShardChannel.Stop (as databaseChannel.Stop does) instead of ChannelManager.Close, because Close cancels the context first and the stream's recv loop may then refuse the last chunk (shutdown loss, outside C16; observation). One live node, every shard has a channel; shard-count changes and leader changes are not generated. For a proto request without request namespace a metric's own namespace longer than MaxNamespaceLength is not generated (no check exists on that path; acceptance not claimed). A row stored without namespace reads as default-ns on the storage side (readOnlyRow.NameSpace) while its NameHash is xxhash(name) (observation: only reachable by callers that bypass the handler)."),
+    "assumptions": ["request namespace within limits and non-empty (the handler guarantees this), except protobuf requests parsed without request-level namespace (proto.Parse / NewBrokerRowProtoConverter called with \"\": not producible by the HTTP handler, which always substitutes default-ns; behaviour documented by the converter's `len(rc.namespace) > 0` branch); enriched tags non-empty/within limits/unique keys",
                     "timestamps never 0 and >= 10 min away from the window thresholds", "one goroutine (no concurrent requests)",
                     "flat rows < 10 KiB; -0.0 not generated (not representable on either wire)", "database channels are created once per database (options do not change during a case)"],
     "tests": [
@@ -395,9 +400,9 @@ CHECKS["C09"] = {
     "level": "exploration",
     "technique": ("(a) real-goroutine rounds released by a barrier running the production worker call sequences, (b) stateful PBT (rapid) with "
                   "production-order flush cycles, creators nested at FS seams inside Flush (harness-owned schedule), reopen and crash images; "
-                  "reference model name->id + recovered-node oracle; goroutine stress of creators next to running flush cycles; read-only metadata queries (production plan call sequences) as history operations and as goroutines next to creators; all []byte arguments live in reused buffers that are overwritten after each call"),
+                  "reference model name->id + recovered-node oracle; goroutine stress of creators next to running flush cycles; read-only metadata queries (production plan call sequences) as history operations and as goroutines next to creators; all []byte arguments live in reused buffers that are overwritten after each call; kv compaction of dictionary/index families as a history operation (production job run synchronously)"),
     "rule": ("TestConcurrentAssign: case = 30 rounds (thorough 60) of k=2..8 goroutines (metadata worker, index worker of shard i on ITS index db, metadata calls of further shards) on one meta db shared "
-             "by 1-3 index dbs, PrepareFlush/Flush steps between rounds; non-trivial = some row with a new name given to >=2 goroutines in one round; plus 0-2 query goroutines with 1-4 read-only metadata queries each (Suggest*, tag filter =|in|like|regexp, tag values, series lookups) about old names and names being created; every creator owns a wire (arena + receive buffer reused for all []byte arguments; mode invert|fill|next). TestHistory: write/query/flushStep/reopen/crash state machine; query = one of show-namespaces, show-metrics, show-tag-keys+fields, show-tag-values, tag-filter, tag-values-of-key, series-of-metric, also nested at FS seams inside Flush; wire mode drawn per case; "
+             "by 1-3 index dbs, PrepareFlush/Flush steps between rounds; non-trivial = some row with a new name given to >=2 goroutines in one round; plus 0-2 query goroutines with 1-4 read-only metadata queries each (Suggest*, tag filter =|in|like|regexp, tag values, series lookups) about old names and names being created; every creator owns a wire (arena + receive buffer reused for all []byte arguments; mode invert|fill|next). TestHistory: write/query/flushStep/reopen/crash state machine; query = one of show-namespaces, show-metrics, show-tag-keys+fields, show-tag-values, tag-filter, tag-values-of-key, series-of-metric, also nested at FS seams inside Flush; wire mode drawn per case; names of each case are drawn from a per-case universe (1-3 namespaces, 2-5 metrics, 1-3 tag keys, 3-6 tag values out of pools with proper-prefix pairs / mixed lengths, so that one dictionary bucket receives names in several flush cycles); further operations: writeBatch (2-4 rows), flushCycle (a whole cycle as one step), compact = the background compaction job (Family.Compact guard or periodic threshold guard, drawn) of a drawn subset of the kv families of the metadata store (ns, metric, tv, schema) and of every shard's index store (series, inverted, metric, forward), in any phase of a flush cycle, with crash images and nested writes/queries at its FS seams; every compaction that ran is a case of group dictionary-compactions, non-trivial = it merged >=1 dictionary bucket whose entries were written by >=2 flushes; "
              "non-trivial = >=1 recovered image inside a Flush with ids handed out after the last sequence sync; every recovered image is one distinct case of group crash-points. "
              "TestConcurrentFlushStress: iteration non-trivial = >=1 flush cycle ran next to the workers; one query goroutine (SuggestMetrics/SuggestNamespace/series lookups) runs as long as the workers, the wire mode rotates with the iteration. distinct = hash of rounds / history(+image tag)"),
     "level_text": ("Exploration. Part (a) and the stress test are schedule dependent by nature (Go scheduler); they run thousands of barrier rounds so that a missing re-check is hit with probability ~1 "
@@ -407,7 +412,7 @@ CHECKS["C09"] = {
                    "field ids per metric, series ids per (index db, metric). Namespace ids are only observed through metric ids. Suggest* results are judged only for soundness (scope, prefix, no duplicate) and completeness under the limit; order/limit cuts are C20; every id a lookup reports is folded into the model like a creator's answer. Query goroutines next to creators use known tag key ids and do not read GetSchema or the grouping scan (data races of the read path, not id assignment). Faults inside lindb are converted to failures in TestHistory (SetPanicOnFault). whether tag names of a FOUND series survived a crash is C07. "
                    "rapid reports part (a) failures as 'flaky test' with the original traceback = the recorded round."),
     "assumptions": ["one goroutine per index database (as memdb's index worker)", "flush protocol of dataFlushChecker.doFlush / database.Close",
-                    "names are non-empty, unchanged by sanitising", "callers may overwrite any []byte argument as soon as the call returned (zero-copy sub-slices of a reused row buffer, as the storage write path does)", "metadata queries use limit 1..100", "lindb leaks LRU janitor goroutines per opened store (not the harness)"],
+                    "names are non-empty, unchanged by sanitising", "callers may overwrite any []byte argument as soon as the call returned (zero-copy sub-slices of a reused row buffer, as the storage write path does)", "metadata queries use limit 1..100", "compaction jobs run between (not inside) Flush calls of the harness schedule; ingestion/queries interleave with the job only at its FS seams; a running store sees compacted files only after its next non-empty Flush or a reopen (the final reopen of every case makes each compaction observable)", "lindb leaks LRU janitor goroutines per opened store (not the harness)"],
     "tests": [
         {"name": "TestConcurrentAssign", "quick": 150, "thorough": {"checks": 400, "shards": 8}},
         {"name": "TestConcurrentAssignRace", "thorough": {"checks": 150, "shards": 4, "race": True}},
@@ -426,16 +431,19 @@ CHECKS["C03"] = {
              "values k/8 plus arbitrary finite floats for non-additive types), compaction after any flush (Family.Compact guard or periodic guard, CompactThreshold 0/1/2), MaxFileSize in {default,1,150,400,1MiB}, reopen, repeated compaction. "
              "After every flush reader == model exactly; across every compaction: same cells/series/fields/slot range both ways, sum/min/max/histogram aggregate equal, first/last in contributed values; level 0 empty and one file per metric afterwards. "
              "non-trivial = a compaction that ran had >= 2 input files sharing a (metric, series, field, slot) cell; distinct = hash of options + file contents + step sequence; "
-             "classes: split-output, level1-overlap, field-only-in-some-files, container-boundary-crossed, series-without-data-in-file, declared-field-without-data, single-field-block, range-wider-than-360, repeated-compaction, trivial-move, reopen"),
+             "classes: split-output, level1-overlap, field-only-in-some-files, container-boundary-crossed, series-without-data-in-file, declared-field-without-data, single-field-block, range-wider-than-360, repeated-compaction, trivial-move, reopen. "
+             "Placed histories (TestCompactionPlacedFiles): 3-6 far-apart metric ids incl. 0 and 4294967295; rounds of 1-3 narrow flushes placed left/right/both sides of an existing level-1 file, in bands, or as subsets, then a compaction; level-1 inputs are picked per level-0 file range, so outputs span untouched level-1 files and level-1 files intersect in key range. Every block lookup with two or more live files covering the metric id is repeated 24 times in the same snapshot (level file order is a map order) and must return the same set of files; non-trivial also = a compaction output that spans an untouched level-1 file. Concurrent jobs (TestConcurrentFamilyCompactions): 2-4 families in 1-2 stores with their own schemas, union slot range per metric narrow / 355-400 / 500-1800 / far-apart narrow windows; jobs start through a barrier plus kv.VerifCompactSync, Family.Compact back to back, the store periodic job, or one after the other; the per-family oracle is unchanged and evaluated while idle. Classes: output-range-spans-untouched-level1-file, level1-key-ranges-intersect, metric-covered-by-2-level1-ranges, lookup-repeated, round-*, concurrent-jobs-with-union-range-over-360: N, start-*"),
     "level_text": ("Generated-input exploration: thousands of small histories per run (58% non-trivial, 1/3 with split output, 1/5 with level-1 overlap) plus dense cases with up to 70000 consecutive series ids; "
                    "every (metric, series, field, slot) is read back through the production reader before and after each compaction and compared with an independent model, which is exactly the statement's quantifier up to sampling."),
     "level_note": ("Trusted: roaring, the kv table format (C15), manifest handling (C01). Values dyadic so float sums are exact. Rollup merges (kv.Rollup context) belong to C04. "
-                   "Structural assertions (level 0 empty, one file per key after compaction) are the documented level behaviour, not part of the statement."),
+                   "Structural assertions (level 0 empty, one file per key after compaction) are the documented level behaviour, not part of the statement. Concurrent compactions are a stress test: whether jobs overlap is up to the scheduler; the measured per-case detection rate of a buffer shared between jobs (seeded C03f) is about 55% overall and 80-100% within the class (chance of a 16-case quick run missing it < 1e-5). The oracle holds under every interleaving."),
     "assumptions": ["store options = kv.DefaultStoreOption (2 levels) as tsdb/segment.go", "metric slot range is the tight min/max of written slots (memdb StoreTimeRange)",
-                    "field type of a (metric, field id) never changes", "slots <= 3599 + small widths, <= 3 fields per dense case"],
+                    "field type of a (metric, field id) never changes", "slots <= 3599 + small widths, <= 3 fields per dense case", "the store's periodic ticker (1 min) never fires within a case"],
     "tests": [
         {"name": "TestCompactionKeepsObservations", "quick": 3000, "thorough": {"checks": 6000, "shards": 16}},
         {"name": "TestCompactionDenseSeries", "quick": 6, "thorough": {"checks": 12, "shards": 16}},
+        {"name": "TestCompactionPlacedFiles", "quick": 400, "thorough": {"checks": 1500, "shards": 16}},
+        {"name": "TestConcurrentFamilyCompactions", "quick": 16, "thorough": {"checks": 60, "shards": 16}},
         {"name": "TestBuilderMatchesMemdbFlush", "quick": 1000, "thorough": {"checks": 5000, "shards": 4}},
         {"name": "TestModelUnit", "quick": {}, "thorough": {}},
         {"name": "TestRegression_.*", "quick": {}, "thorough": {}},
@@ -450,12 +458,12 @@ CHECKS["C04"] = {
                   "query-level cross-check through the production planner"),
     "rule": ("case = database intervals (source 1..60 s dividing 5 min; month-type target 5/10/15/30 min and/or year-type target 1/2/3/4/6 h), 1-3 source families around boundary dates "
              "(month ends, leap day, year end/start, 23:00 + next day 00:00), 1-3 metrics x 1-5 fields (sum/min/max/last/first, values k/8) x 1-5 series, sparse/dense/out-of-order slots with ms jitter, "
-             "history of write / flush(all|some families) / rollup(kv.VerifRollup per family | Store.ForceRollup) / reopen / evict (Engine.EvictSegment: every target segment without a loaded tsdb data family, i.e. not looked up by a query, is closed; then a query lookup Shard.GetDataFamilies reopens a drawn subset of the target intervals) / query lookup of one target interval steps; a write goes either through the data family the writer holds (existing WAL partition, target segments stay closed) or through Shard.GetOrCrateDataFamily (new partition, reopens them); a rollup step may carry one crash image "
+             "history of write / flush(all|some families) / rollup(kv.VerifRollup per family | Store.ForceRollup) / reopen / evict (Engine.EvictSegment: every target segment without a loaded tsdb data family, i.e. not looked up by a query, is closed; then a query lookup Shard.GetDataFamilies reopens a drawn subset of the target intervals) / query lookup of one target interval / snap + release steps (a reader takes Family.GetSnapshot of a source family, or of the target family holding that hour, reads the table readers through it and holds it over the following steps; readers may start inside a running job at the table-create seam, are dropped by a restart, and may pin the recovered source versions on a crash image; reader episodes = file waits, snapshot, 1-3 rollup steps including that family); a write goes either through the data family the writer holds (existing WAL partition, target segments stay closed) or through Shard.GetOrCrateDataFamily (new partition, reopens them); a rollup step may carry one crash image "
              "(before the source commit, between the two target commits, before the first / between the reference clean-ups; 1 or 2 restarts, then rollup twice) or 1-2 harness-owned interleavings "
              "(at the table-create seam of the job's output in the target family a write + flush of a source family - usually the job's own - runs on the job's goroutine: that file is not an input of the running job and must keep waiting); "
              "up to 3 queries group by time(target). "
              "After EVERY step all blocks of all families of all segments of each target interval must equal the field-type aggregate of exactly the points of the source files rolled up so far, "
-             "at the segment/family/slot computed with Go's calendar; a rollup job merges into an interval only if its target segment is open (store manager), otherwise the files keep waiting for that interval; after every step every OPEN target segment equals the aggregate of the files rolled up into THAT interval so far (closed ones are read when reopened, all of them through the shard at the end of the history); after a rollup: source rollup files == per file exactly the intervals it has not been rolled up into, no target reference files. "
+             "at the segment/family/slot computed with Go's calendar; a rollup job merges into an interval only if its target segment is open (store manager), otherwise the files keep waiting for that interval; after every step every OPEN target segment equals the aggregate of the files rolled up into THAT interval so far (closed ones are read when reopened, all of them through the shard at the end of the history); after a rollup: source rollup files == per file exactly the intervals it has not been rolled up into, no target reference files; every target cell is stored in exactly as many files of its target family as rollup jobs merged a source file with a point for it (no target compaction in the history); a held target-family snapshot reads, when taken and when released, exactly the aggregate of the files rolled up when it was taken. "
              "non-trivial = some target slot is fed by >= 2 source slots and >= 2 source files were rolled up; distinct = hash of the complete plan (JSON)"),
     "level_text": ("Generated-history exploration over the production flush and rollup code (kv family.rollup/doRollupWork, metricsdata merger, tsdb segment naming). Every written point is kept in a plain model; "
                    "the oracle never uses lindb's interval calculators. 600 cases per quick run (about 2/3 non-trivial; both calculator pairs, two-target configurations (1/2 of the cases), evict/skip/catch-up episodes, >= 2 target families/segments, "
@@ -467,11 +475,12 @@ CHECKS["C04"] = {
                     "source interval is day-type; month->year rollup and histogram fields are not generated",
                     "source families are not compacted before the rollup in the asserted test",
                     "after a restart the source families are reopened the way the next write does (Shard.GetOrCrateDataFamily), which also opens the target segments",
-                    "whether a target segment is open is read from the store manager, the predicate production uses", "source data families are never evicted",
+                    "whether a target segment is open is read from the store manager, the predicate production uses", "source data families are never evicted", "target families are never compacted in the asserted histories", "a reader of a target family finds it through Shard.GetDataFamilies (this loads the tsdb family, so the segment is no longer evictable)", "snapshots are released before a restart",
                     "TZ=UTC"],
     "tests": [
         {"name": "TestRollup", "quick": 600, "thorough": {"checks": 4000, "shards": 16}},
         {"name": "TestObservation_CompactedSourceFile", "quick": 40, "thorough": {"checks": 300, "shards": 1}},
+        {"name": "TestRegression_.*", "quick": {}, "thorough": {}},
     ],
 }
 
@@ -528,13 +537,13 @@ CHECKS["C12"] = {
 CHECKS["C10"] = {
     "pkg": "./c10/",
     "level": "exploration",
-    "technique": "property-based testing (rapid): generated series sets + SQL tag conditions parsed by the production parser, executed through the in-process root/leaf query path over generated flush/compaction/restart histories; brute-force reference evaluation + metamorphic relation between index states; harness-owned interleavings inside index flush/compaction and inside lookups (kv FS hooks + index/c10_w3_verif.go)",
+    "technique": "property-based testing (rapid): generated series sets + SQL tag conditions parsed by the production parser, executed through the in-process root/leaf query path over generated flush/compaction/restart histories; brute-force reference evaluation + metamorphic relation between index states; harness-owned interleavings inside index flush/compaction and inside lookups (kv FS hooks + index/c10_w3_verif.go); series ids placed at container boundaries through index.VerifSetNextSeriesID",
     "rule": ("case = 5-200 series of 1-3 metrics (shared/missing keys, values sharing prefixes/suffixes, unicode, '*', quotes, commas, per-series uid) in 1-5 write batches, "
              "2-4 conditions generated as SQL text (=, !=, <>, like/not like with x*, *x, *x*, x, *, **; in/not in; =~/!~; and/or/parentheses, generated depth <= 4, also unparenthesised chains), "
              "history of <= 16 steps (write, bare PrepareFlush, full/meta/index/data flush of all or some shards, synchronous compaction of the dictionary/index kv families with or without obsolete-file deletion, "
              "graceful restart, re-write of known series); every condition is checked after every step: group by uid = brute force, group by (uid,k)/(k)/(k1,k2) values and point counts, same answer as in earlier states of the same data. "
              "non-trivial = at some checkpoint the condition selects a non-empty proper subset, has >= 2 atoms, >= 1 atom is like/regex/negated, and the index is not purely in memory (a file exists or a PrepareFlush is pending); "
-             "distinct = hash(series, conditions, history). TestTagFilterManySeries (thorough): one metric with 65536+N or 131072+N series, tagged series at every container boundary. About every third index flush / compaction step has 1-3 plans of operations nested inside: at a drawn harness-owned point (file-system operation of a dictionary/index kv family, or a call of an index store to its kv family/flusher: newFlusher, commit, getSnapshot, release; before/after, n-th occurrence) the flush is parked and 1-3 pre-drawn operations (condition checks against the model, probe conditions of depth 0-1, re-writes, writes of new series) run as another client; points where the store lock is held run right after the call; after such a step every written tag value is asked for by `k in (...)` (dictionary sweep). TestTagFilter also has the step 'lookup with a complete meta/index flush nested inside' at the lookup's getSnapshot points of the inverted/forward/metric/schema families."),
+             "distinct = hash(series, conditions, history). TestTagFilterManySeries (thorough): one metric with 65536+N or 131072+N real series, tagged series at every container boundary, written in 2-4 flushed batches cut around container boundaries, then compacted (possibly twice, with a batch in between) and restarted. A quarter of the cases carry series id plans: the series of a (metric, shard) are created in consecutive runs whose ids jump 1-3 times to a roaring container boundary (65536, 131072, 196608; 1-4 ids before it, on it, 1-2 after it, or anywhere inside the container), so posting lists, forward index entries, their flush, their compaction merge, the offset tables of the readers and the group-by scanners span 2-4 containers in every generated index state. About every third index flush / compaction step has 1-3 plans of operations nested inside: at a drawn harness-owned point (file-system operation of a dictionary/index kv family, or a call of an index store to its kv family/flusher: newFlusher, commit, getSnapshot, release; before/after, n-th occurrence) the flush is parked and 1-3 pre-drawn operations (condition checks against the model, probe conditions of depth 0-1, re-writes, writes of new series) run as another client; points where the store lock is held run right after the call; after such a step every written tag value is asked for by `k in (...)` (dictionary sweep). TestTagFilter also has the step 'lookup with a complete meta/index flush nested inside' at the lookup's getSnapshot points of the inverted/forward/metric/schema families."),
     "level_text": ("Generated-input and generated-history exploration: each case runs 20-60 statements through the production parser, root planner, leaf pipeline, dictionaries, posting lists, forward index and grouping, "
                    "in memory / prepared / flushed / two-files / compacted / restarted / mixed index states (states are classified from the real file counts), and compares with an independent brute-force model."),
     "level_note": ("Trusted: sim/node loop-back transport, Go regexp as the regex semantics (the memory path uses rp.Match). `like` semantics taken from index/kv_store.go (no documentation exists): one leading/trailing '*' is a wild card. "
@@ -544,7 +553,7 @@ CHECKS["C10"] = {
                     "tag values are valid UTF-8, non-empty (ingestion rejects empty), condition literals contain no single quote or line break (not expressible in the grammar)",
                     "a bare PrepareFlush is always completed by a flush before a restart (database.Close waits for a running flush)",
                     "fresh database name per case (lindb leaks the per-database query pools; same-name pools share the workers_alive gauge)",
-                    "all points at one timestamp, value 1 (point counts identify double counting)",
+                    "all points at one timestamp, value 1 (point counts identify double counting)", "series id plans: the skipped ids stand for earlier series of the metric that carry none of the generated tag keys (not even uid) and have no point in the queried time range; every generated statement has a tag condition, so it cannot select them; ids stay < 200000 (default series limit)",
                     "an operation nested at a point runs to completion while the flush/lookup is parked (seam granularity, no preemption inside lindb functions); flush-inside-lookup only with one shard; no data-family flush and no compaction inside a lookup (posting lists are zero-copy views of mapped files that outlive the lookup's snapshot: a compaction completing inside a lookup can unmap them - observation, C02/C03 territory)"],
     "tests": [
         {"name": "TestTagFilter", "quick": 800, "thorough": {"checks": 3000, "shards": 8}},
